@@ -36,6 +36,11 @@ func (g *PackageLoader) GetMatching(cwd, fullMethod string, opts *method.ParseOp
 	if err != nil {
 		return nil, fmt.Errorf("could not parse name as regexp %q: %s", name, err)
 	}
+	// the pattern has to match the whole name, with any of its alternatives
+	fullPattern, err := regexp.Compile("^(?:" + name + ")$")
+	if err != nil {
+		return nil, fmt.Errorf("could not parse name as regexp %q: %s", name, err)
+	}
 
 	if _, complete := pattern.LiteralPrefix(); complete {
 		// not a regex
@@ -56,11 +61,7 @@ func (g *PackageLoader) GetMatching(cwd, fullMethod string, opts *method.ParseOp
 
 	scope := pkg.Types.Scope()
 	for _, name := range scope.Names() {
-		loc := pattern.FindStringIndex(name)
-		if len(loc) != 2 {
-			continue
-		}
-		if loc[0] != 0 || loc[1] != len(name) {
+		if !fullPattern.MatchString(name) {
 			// we want full match only: e.g. CopyAbc.* won't match OtherCopyAbc
 			continue
 		}
